@@ -115,17 +115,16 @@ __CPROVER_assigns(V(p)->enabled_breakpoints._n, __CPROVER_object_whole(CODE(p)),
 __CPROVER_ensures(NEN(p) == 0) /*@C06,C17*/
 __CPROVER_ensures(CODE_G_PARAMS_SAME(p)) /*@C05,C17*/
 __CPROVER_ensures(CODE_G_OP_DEBUGGER_ONLY(p)) /*@C05,C17*/
-#ifdef CLEAR_COMPLETE
 /* every site of every enabled location is passive again: ghost enabled position g_e, ghost entry g_w with that key,
  * ghost position g_s in its site list */
 __CPROVER_ensures(g_e >= OLD(NEN(p)) || g_w >= NPB(p) || !BPEQ(PB(p)[g_w].first, ge_file, ge_line) || g_s >= SITES(p, g_w)._n ||
                   OPC(p, SITES(p, g_w)._d[g_s]) == OP_POTENTIAL_BREAK) /*@C05,C06,C17*/
-#endif
 ;
 
 /* ------------------------------------------------------------------ reset (C17): callee clearBreakpoints replaced */
 void c_reset(void *p)
 REQ_DBG_SHAPE(p)
+REQ_LIST(p, g_w)
 __CPROVER_requires(model_pick_map == NONE && model_pick2_map == NONE && model_pick3_map == NONE)
 __CPROVER_assigns(STEPPING(p), IP(p), V(p)->data._n, V(p)->stack._n, V(p)->enabled_breakpoints._n,
                   __CPROVER_object_whole(CODE(p)), MODEL_MAP_GHOSTS, g_cur_lo, g_cur_hi)
@@ -133,10 +132,8 @@ __CPROVER_assigns(STEPPING(p), IP(p), V(p)->data._n, V(p)->stack._n, V(p)->enabl
 __CPROVER_ensures(STEPPING(p) == 0 && IP(p) == 0 && M(p) == 0 && D(p) == 0 && NEN(p) == 0) /*@C17,C06,C19*/
 __CPROVER_ensures(CODE_G_PARAMS_SAME(p)) /*@C17,C05*/
 __CPROVER_ensures(CODE_G_OP_DEBUGGER_ONLY(p)) /*@C17,C05*/
-#ifdef CLEAR_COMPLETE
 __CPROVER_ensures(g_e >= OLD(NEN(p)) || g_w >= NPB(p) || !BPEQ(PB(p)[g_w].first, ge_file, ge_line) || g_s >= SITES(p, g_w)._n ||
-                  OPC(p, SITES(p, g_w)._d[g_s]) == OP_POTENTIAL_BREAK) /*@C17*/
-#endif
+                  OPC(p, SITES(p, g_w)._d[g_s]) == OP_POTENTIAL_BREAK) /*@C17,C06,C05*/
 ;
 
 /* ------------------------------------------------------------------ setBreakPoint (C05, C06) */
